@@ -333,6 +333,12 @@ func (e *Engine) call(fr *Frame, st *State, reach Term, site ssa.Instruction, c 
 		}
 	}
 	if bi, ok := c.Value.(*ssa.Builtin); ok && !c.IsInvoke() {
+		if bi.Name() == "close" && len(args) == 1 && len(args[0].L) >= 1 {
+			// close(ch) is a visible event (contracts: called(close#k)); closing a nil channel panics
+			e.safety("nil", "close", reach, Not(Eq(args[0].L[0], IntLit(0))))
+			e.callOrd["close"]++
+			e.labels[fmt.Sprintf("close#%d", e.callOrd["close"])] = &callLabel{Reach: reach, Args: args}
+		}
 		return e.builtin(fr, st, reach, bi, c, args, resType), reach
 	}
 	var id string
